@@ -35,7 +35,7 @@ func genC09(env *Env) string {
 	nextID := 400
 	n := 3 + r.Intn(12)
 	for i := 0; i < n; i++ {
-		k := r.Intn(22)
+		k := r.Intn(23)
 		if len(tpls) == 0 {
 			k = 0
 		}
@@ -105,16 +105,32 @@ func genC09(env *Env) string {
 			}
 			parts = append(parts, fmt.Sprintf("S P D %d %s%s ;", t.id, pre, rec))
 			env.Count("send/data-ill-typed-value")
-		case k < 14:
+		case k < 15:
 			// set header id differs from the records' template id (both known, or header unknown)
 			t := tpls[r.Intn(len(tpls))]
 			hdr := 9000 + r.Intn(100)
 			if r.Bool() {
 				hdr = tpls[r.Intn(len(tpls))].id
 			}
+			if r.Bool() && len(tpls) > 1 {
+				// the first record(s) belong to the set's template; a later one is a conforming
+				// record of ANOTHER registered template, added under that other id
+				a := tpls[r.Intn(len(tpls))]
+				pre := a.dataAdd(r, a.id, nil)
+				if r.Intn(3) == 0 {
+					pre += " " + a.dataAdd(r, a.id, nil)
+				}
+				post := ""
+				if r.Intn(3) == 0 {
+					post = " " + a.dataAdd(r, a.id, nil)
+				}
+				parts = append(parts, fmt.Sprintf("S P D %d %s %s%s ;", a.id, pre, t.dataAdd(r, t.id, nil), post))
+				env.Count("send/data-later-record-of-other-template")
+				break
+			}
 			parts = append(parts, fmt.Sprintf("S P D %d %s ;", hdr, t.dataAdd(r, t.id, nil)))
 			env.Count("send/data-set-id-vs-record-id")
-		case k < 16:
+		case k < 17:
 			// size boundary data
 			if !hasTpl(tpls, strT.id) {
 				tpls = append(tpls, strT)
@@ -124,7 +140,7 @@ func genC09(env *Env) string {
 			parts = append(parts, sizedData(r, strT, ml))
 			big = true
 			env.Count("send/data-size-boundary")
-		case k < 17 && r.Intn(12) == 0:
+		case k < 18 && r.Intn(12) == 0:
 			// template set around the limit, then data for that id
 			nspec := 16375 + r.Intn(6) // 16377 -> 65532, 16378 -> 65536
 			id := nextID
@@ -133,18 +149,18 @@ func genC09(env *Env) string {
 			parts = append(parts, fmt.Sprintf("S P D %d N %d A 2 %d 0 ;", id, 1+r.Intn(3), id))
 			big = true
 			env.Count("send/template-size-boundary-then-data")
-		case k < 18:
+		case k < 19:
 			// undefined set type: a reset set that was never prepared
 			parts = append(parts, "S R A 1 256 1 7 1 0 1 u8 3 L ;")
 			env.Count("send/undefined-type")
-		case k < 19:
+		case k < 20:
 			// template id sent again with a different field count, then data of either shape
 			t := tpls[r.Intn(len(tpls))]
 			u := t
 			u.specs = append(append([]IESpec{}, t.specs...), randSpec(r))
 			parts = append(parts, u.tplSet(r), u.dataSet(r, 1), t.dataSet(r, 1))
 			env.Count("send/template-redefined")
-		case k < 20:
+		case k < 21:
 			t := tpls[r.Intn(len(tpls))]
 			parts = append(parts, t.tplSet(r))
 			env.Count("send/template-again")
